@@ -1,7 +1,8 @@
 """Launcher: run a worker (harness/impl_*.py) while OTHER threads of the same process sit parked inside jaxtyping:
  T1 inside a jaxtyped context that has bound axes and a structure name, in the leaf loop of a structured PyTree check
     (so a '?'-leaf position is set in that thread);
- T2 inside the flatten phase of a PyTree check (so the "array type only" mode is on in that thread).
+ T2 inside the flatten phase of a PyTree check (so the "array type only" mode is on in that thread);
+ T3 keeps entering and leaving contexts and decorated calls that bind the common axis names to other sizes.
 All of that state is per thread; the worker's own results must be exactly what they are without the parked threads.
 usage: bgrun.py <worker.py>   (stdin/stdout as the worker's)"""
 import os, runpy, sys, threading
@@ -36,6 +37,11 @@ def start():
         with jaxtyped("context"):
             isinstance(np.zeros((3, 4), "float32"), Float[np.ndarray, "n m"])
             isinstance(np.zeros((2, 5), "float32"), Float[np.ndarray, "*v"])
+            # every axis name the workers' generators use, bound to a size they never use
+            for nm in ("a", "b", "c", "d", "k", "q", "r", "x", "y", "i", "j", "h", "w", "foo", "bar", "dim", "batch", "rows", "cols", "n0", "n1", "n2"):
+                isinstance(np.zeros((97,), "float32"), Float[np.ndarray, nm])
+            for nm in ("s", "t", "u", "vs", "shape", "lead"):
+                isinstance(np.zeros((97, 89), "float32"), Float[np.ndarray, "*" + nm])
             isinstance((ParkObj(0, 2),), PyTree[ParkLeaf, "T"])
 
     def t2():
@@ -43,15 +49,38 @@ def start():
         with jaxtyped("context"):
             isinstance(np.zeros((7,), "float32"), Float[np.ndarray, "a"])
             isinstance([ParkObj(1, 1)], PyTree[ParkLeaf])
+    def t3():
+        # a third thread keeps entering and leaving contexts and decorated calls that bind the common axis names to other sizes
+        from jaxtyping import jaxtyped as _jt
+        import typeguard
+
+        @_jt(typechecker=typeguard.typechecked)
+        def churn(x: Float[np.ndarray, "n m"], y: Float[np.ndarray, "a b"]) -> Float[np.ndarray, "n b"]:
+            return np.zeros((x.shape[0], y.shape[1]), "float32")
+        xs, ys = np.zeros((91, 83), "float32"), np.zeros((79, 73), "float32")
+        import sys as _sys
+        old = _sys.getswitchinterval()
+        while not release.is_set():
+            try:
+                churn(xs, ys)
+                with _jt("context"):
+                    for nm in ("n", "m", "a", "b", "c", "d", "k", "i", "j"):
+                        isinstance(xs[0], Float[np.ndarray, nm])
+            except BaseException:  # noqa
+                pass
+            release.wait(0.001)        # leave the interpreter to the worker most of the time
     ths = [threading.Thread(target=f, name="vf-parked-%d" % i, daemon=True) for i, f in enumerate((t1, t2))]
+    churner = threading.Thread(target=t3, name="vf-churn", daemon=True)
     for t in ths:
         t.start()
     for r in ready:
         r.wait(60)
+    sys.setswitchinterval(0.0002)      # let the threads interleave at a fine grain
+    churner.start()
 
     def stop():
         release.set()
-        for t in ths:
+        for t in ths + [churner]:
             t.join(30)
     return stop, all(r.is_set() for r in ready)
 
